@@ -180,3 +180,98 @@ pub fn take_viols(o: &mut Outcome, c: &Core, prop: &'static str, accept: &[&str]
         }
     }
 }
+
+pub struct WCase {
+    pub id: String,
+    pub scn: Scn,
+}
+pub fn wcase(id: String, scn: Scn) -> WCase {
+    WCase { id, scn }
+}
+
+/// Runs one world case for `prop` with the given oracles; `post` adds property-specific offline
+/// checks and decides non-triviality.
+pub fn run_world_case(c: &WCase, o: Oracles, prop: &'static str, post: &dyn Fn(&Core, &mut Outcome)) -> Outcome {
+    let w = run_scn(&c.scn, o);
+    let mut out = Outcome::new(world_desc(&w));
+    absorb_obs(&mut out, &w);
+    take_viols(&mut out, &w, prop, &[]);
+    out.sig = world_sig(&w);
+    post(&w, &mut out);
+    if !matches!(out.verdict, Verdict::Held) {
+        out.witness = world_witness(&w);
+    }
+    out
+}
+
+pub fn filter_cases(ctx: &Ctx, cs: Vec<WCase>) -> Vec<WCase> {
+    cs.into_iter().filter(|c| ctx.only_case.as_ref().is_none_or(|o| *o == c.id)).collect()
+}
+
+pub fn std_assumptions() -> Vec<String> {
+    vec![
+        "virtual clock hook replaces instant::Instant (verif-hooks feature)".into(),
+        "harness game, truth model and simulated network are trusted".into(),
+        "held on the executions produced, not verified".into(),
+    ]
+}
+
+/// One peer is starved of remote input: long outages (1 tick .. 50 s) towards it or a paused
+/// remote. Windows 0..=12 (0 = lockstep), delays 0..=6 (including delay > window).
+pub fn gen_starved(r: &mut Rng, frames: i32) -> Scn {
+    let mut s = gen_c01_space(r, frames);
+    s.mp = r.range(0, 12) as usize;
+    s.delay = r.below(7) as usize;
+    s.notify_ms = 100_000;
+    s.timeout_ms = 120_000;
+    s.link.outages.clear();
+    s.link.drop = r.pick(&[0.0, 0.0, 0.05]);
+    let n = s.peers.len();
+    let victim = r.below(n as u64) as usize;
+    let a = r.range(1200, 3000);
+    let len = r.pick(&[17u64, 50, 200, 1000, 5000, 20_000, 50_000]);
+    if r.chance(0.6) {
+        // outage on every link into the victim
+        for q in 0..n {
+            if q != victim {
+                let mut l = s.link.clone();
+                l.outages.push(Outage { from_ms: a, to_ms: a + len, kinds: 0 });
+                s.link_overrides.push((peer_addr(q), peer_addr(victim), l));
+            }
+        }
+    } else {
+        // another peer is paused
+        let other = (victim + 1) % n;
+        while s.nodes.len() <= other {
+            s.nodes.push(NodeCfg::default());
+        }
+        s.nodes[other].pauses.push((a, a + len.min(20_000)));
+    }
+    if s.mp == 0 {
+        for c in s.nodes.iter_mut() {
+            c.wait = r.pick(&[0u8, 0, 1, 2]);
+            c.wait_ms = r.pick(&[0u64, 1, 5, 16, 40]);
+        }
+    }
+    s.limit_ms = (a + len + 20_000).max(40_000);
+    s
+}
+
+/// Two-peer session in which peer 1 dies at a random moment after everybody is Running.
+pub fn gen_death2(r: &mut Rng, frames: i32) -> Scn {
+    let mut s = Scn::base(r.next());
+    s.peers = if r.chance(0.5) { vec![vec![0], vec![1]] } else { r.pick(&[vec![vec![0, 2], vec![1, 3]], vec![vec![0, 1], vec![2]], vec![vec![0], vec![1, 2]]]) };
+    s.pred = r.below(2) as u8;
+    s.mp = r.pick(&[0usize, 1, 2, 3, 8, 12]);
+    s.delay = r.below(4) as usize;
+    s.sparse = r.chance(0.5);
+    s.sticky = r.pick(&[1u32, 3, 10]);
+    s.frames = frames;
+    s.notify_ms = r.pick(&[100u64, 300, 500, 1000]);
+    s.timeout_ms = s.notify_ms + r.pick(&[0u64, 200, 1500]);
+    s.link = Link { drop: r.pick(&[0.0, 0.0, 0.05]), dup: r.pick(&[0.0, 0.1]), base_ms: r.pick(&[0u64, 10, 40]), jitter_ms: r.pick(&[0u64, 5]), outages: vec![], faults: vec![] };
+    s.kill = Some(Kill { node: 1, at_ms: r.range(1500, 3000), pdrop: r.pick(&[0.0, 0.5, 1.0]) });
+    s.start = Start::AllRunning;
+    s.settle_ms = 500;
+    s
+}
